@@ -108,7 +108,9 @@ func (params *filterParams) typeofNode(n ast.Node) types.Type {
 		e = n.Type
 	}
 	if typ := params.ctx.Types.TypeOf(e); typ != nil {
-		return typ
+		// Filters inspect the type structurally (e.g. typ.(*types.Basic)),
+		// an alias must not hide the type it denotes.
+		return types.Unalias(typ)
 	}
 	return invalidType
 }
